@@ -291,6 +291,7 @@ func checkC18(c *Ctx) {
 			c.Check(okAll, "C18.R1.vocabulary", key, t.PosStr(dl.pos), "read back by tagger "+want, why)
 		}
 	}
+	checkDocLineFlags(c, ev)
 	checkAnnotations(c, ev, scan)
 
 	// ---- R2 every struct-field template emits the doc string
@@ -335,6 +336,8 @@ func checkC18(c *Ctx) {
 	checkRoundTripWiring(c, gen, scan)
 	// the scanner reads the json tags the generator writes: name first, options after it
 	checkJSONTags(c, "C18.R4.json-tags", scan)
+	checkImportsIndexed(c, "C18.R5.imports-indexed", scan)
+	checkPlatformSuffixes(c, "C18.R6.file-suffixes", gen)
 	checkExclusiveMarkers(c, ev)
 }
 
@@ -538,5 +541,96 @@ func checkExclusiveMarkers(c *Ctx, ev *tmpl.Evaluator) {
 			c.Check(ok, rule, fmt.Sprintf("%s › %s › %s exclusive marker #%d", l.Tree.Asset, tn, bound, k), l.Tree.PosStr(l.PosAt(m[4])), "`"+wantMarker+" ` under .Exclusive"+bound,
 				fmt.Sprintf("the `%s ` marker of the %s doc line is emitted under `%s`: a rescanned model gets the exclusive flag of the other bound", marker, bound, inner))
 		}
+	}
+}
+
+
+// checkDocLineFlags: a validation doc line must be emitted whenever its own keyword is set in
+// the schema, whatever the other keywords are: the conjunction of the guards around the line
+// holds in the model where only the atoms of the innermost guard are true.
+func checkDocLineFlags(c *Ctx, ev *tmpl.Evaluator) {
+	rule := "C18.R1.own-flag"
+	c.Rule(rule, "each validation doc line is emitted under its own keyword's flag alone: the guards around it hold when only that flag is set", 14)
+	rx := regexp.MustCompile(`// [A-Z][A-Za-z ]*: `)
+	for _, def := range []string{"propertyValidationDocString", "docstring"} {
+		l := linearOf(c, ev, def)
+		if l == nil {
+			c.Anchor(rule, def, "template not found")
+			continue
+		}
+		for _, oc := range l.Find(rx) {
+			gs := l.GuardsAt(oc.Start + 3)
+			line := strings.TrimSpace(l.Text[oc.Start:oc.End])
+			key := fmt.Sprintf("%s › line %q", def, line)
+			var inner *tmpl.Guard
+			for i := len(gs) - 1; i >= 0; i-- {
+				if gs[i].Kind == "if" {
+					inner = &gs[i]
+					break
+				}
+			}
+			if inner == nil {
+				continue // unconditional text (titles, descriptions)
+			}
+			env := map[string]bool{}
+			tmpl.ParseCond(inner.Pipe).Atoms(env)
+			c.Check(tmpl.StackCond(gs).Eval(env), rule, key, l.Tree.PosStr(oc.Pos), "emitted whenever "+strings.TrimSpace(inner.Pipe)+" is set",
+				fmt.Sprintf("the line is emitted under [%s]: a schema that sets only %s loses the keyword in the generated doc comment, and with it in the scanned spec", tmpl.GuardString(gs), strings.TrimSpace(inner.Pipe)))
+		}
+	}
+}
+
+
+// checkImportsIndexed: the scanner resolves the declaration (and swagger:strfmt annotation) of a
+// field's type through typeIndex.AllPackages; every package reached through the imports must
+// be entered there, whatever the include/exclude rules say about scanning it for models.
+func checkImportsIndexed(c *Ctx, rule string, scan *packages.Package) {
+	c.Rule(rule, "typeIndex.walkImports registers every imported package in AllPackages; the only skip is the already-registered test", 1)
+	fd := load.FuncDecl(scan, "typeIndex.walkImports")
+	if fd == nil {
+		c.Anchor(rule, "codescan.typeIndex.walkImports", "not found")
+		return
+	}
+	info := scan.TypesInfo
+	n := 0
+	goan.WalkGuards(info, fd.Body, func(nd ast.Node, guards []goan.Lit, _ []ast.Stmt) {
+		as, ok := nd.(*ast.AssignStmt)
+		if !ok || len(as.Lhs) != 1 {
+			return
+		}
+		ix, ok := as.Lhs[0].(*ast.IndexExpr)
+		if !ok || goan.LastSel(ix.X) != "AllPackages" {
+			return
+		}
+		n++
+		var extra []string
+		for _, g := range guards {
+			// allowed: the comma-ok result of a lookup in AllPackages, and the function-level excludeDeps switch
+			if goan.LastSel(g.E) == "excludeDeps" || g.NonEmpty {
+				continue
+			}
+			if id, ok := ast.Unparen(g.E).(*ast.Ident); ok {
+				isKnown := false
+				ast.Inspect(fd.Body, func(m ast.Node) bool {
+					if a2, ok := m.(*ast.AssignStmt); ok && len(a2.Lhs) == 2 && len(a2.Rhs) == 1 {
+						if l1, ok := a2.Lhs[1].(*ast.Ident); ok && info.ObjectOf(l1) == info.ObjectOf(id) {
+							if i2, ok := ast.Unparen(a2.Rhs[0]).(*ast.IndexExpr); ok && goan.LastSel(i2.X) == "AllPackages" {
+								isKnown = true
+							}
+						}
+					}
+					return true
+				})
+				if isKnown {
+					continue
+				}
+			}
+			extra = append(extra, goan.ExprString(g.E))
+		}
+		c.Check(len(extra) == 0, rule, "codescan.typeIndex.walkImports › every import is registered", c.posOf(scan, as.Pos()), "guarded by the already-registered test only",
+			fmt.Sprintf("the registration of an imported package also depends on %v: types of a skipped package (e.g. strfmt under --exclude) lose their declaration, and fields of those types are scanned without type and format", extra))
+	})
+	if n == 0 {
+		c.Unk(rule, "codescan.typeIndex.walkImports › every import is registered", c.posOf(scan, fd.Pos()), "no store into AllPackages found")
 	}
 }
